@@ -178,4 +178,86 @@ theorem loadPairs_saveMap (um : Nat) (m : List (Nat × Bal)) (hl : m.length < 2 
   rw [List.append_assoc, UtxoRec.readVLen_putULe m.length hl]
   exact loadRecs_save um m hk extra
 
+/-- every record of a file that `load_map` accepts is a real record (no nil pointer is stored any more) -/
+theorem loadRecs_all_some (um : Nat) : ∀ (n : Nat) (b : Bytes) (l : List (Nat × Option Bal)),
+    loadRecs um n b = some l → l.length = n ∧ ∀ p ∈ l, p.2.isSome = true := by
+  intro n
+  induction n with
+  | zero => intro b l h; simp [loadRecs] at h; subst h; simp
+  | succ n ih =>
+    intro b l h
+    simp only [loadRecs] at h
+    split at h
+    · cases h
+    · split at h
+      · cases h
+      · rename_i ob r x heq
+        split at h
+        · cases h
+        · rename_i l' hl'
+          simp only [Option.some.injEq] at h
+          subst h
+          obtain ⟨hlen, hall⟩ := ih _ _ hl'
+          refine ⟨by simp [hlen], ?_⟩
+          intro p hp
+          rcases List.mem_cons.mp hp with rfl | hp
+          · simp [heq]
+          · exact hall p hp
+
+theorem loadAll_some (um : Nat) : ∀ (fs : List (Option Bytes)) (ls : List (List (Nat × Option Bal))),
+    GocoinV.Model.BalancesDisk.loadAll um fs = some ls →
+      ls.length = fs.length ∧ (∀ f ∈ fs, ∃ b, f = some b ∧ (loadPairs um b).isSome = true) ∧ ∀ l ∈ ls, ∀ p ∈ l, p.2.isSome = true := by
+  intro fs
+  induction fs with
+  | nil => intro ls h; simp [GocoinV.Model.BalancesDisk.loadAll] at h; subst h; simp
+  | cons f rest ih =>
+    intro ls h
+    cases f with
+    | none => simp [GocoinV.Model.BalancesDisk.loadAll] at h
+    | some b =>
+      simp only [GocoinV.Model.BalancesDisk.loadAll] at h
+      split at h
+      · cases h
+      · rename_i l hl
+        split at h
+        · cases h
+        · rename_i ls' hls'
+          simp only [Option.some.injEq] at h
+          subst h
+          obtain ⟨h1, h2, h3⟩ := ih _ hls'
+          refine ⟨by simp [h1], ?_, ?_⟩
+          · intro f hf
+            rcases List.mem_cons.mp hf with rfl | hf
+            · exact ⟨b, rfl, by simp [hl]⟩
+            · exact h2 f hf
+          · intro l0 hl0 p hp
+            rcases List.mem_cons.mp hl0 with rfl | hl0
+            · have hl2 : loadPairs um b = some l := hl
+              unfold loadPairs at hl2
+              split at hl2
+              · cases hl2
+              · exact (loadRecs_all_some um _ _ _ hl2).2 p (List.mem_reverse.mp hp)
+            · exact h3 l0 hl0 p hp
+
+theorem loadAll_none_of (um : Nat) : ∀ (fs : List (Option Bytes)),
+    (∃ f ∈ fs, f = none ∨ ∃ b, f = some b ∧ loadPairs um b = none) → GocoinV.Model.BalancesDisk.loadAll um fs = none := by
+  intro fs
+  induction fs with
+  | nil => rintro ⟨f, hf, _⟩; cases hf
+  | cons g rest ih =>
+    rintro ⟨f, hf, hbad⟩
+    cases g with
+    | none => rfl
+    | some b =>
+      simp only [GocoinV.Model.BalancesDisk.loadAll]
+      cases hb : loadPairs um b with
+      | none => rfl
+      | some l =>
+        simp only []
+        rcases List.mem_cons.mp hf with rfl | hf
+        · rcases hbad with h | ⟨b', h1, h2⟩
+          · cases h
+          · cases h1; rw [hb] at h2; cases h2
+        · rw [ih ⟨f, hf, hbad⟩]
+
 end GocoinV.Proofs.C17Disk
